@@ -347,7 +347,7 @@ def make_frame(rng, values, key_kind=None, attr='attr', key='id', extra_cols=Non
     cols = {key: pd.Series(keys, dtype=object if key_kind in ('str', 'mixed') else None)}
     col = pd.Series(values, dtype=object)
     if str_dtype:
-        col = pd.Series(values, dtype='str')
+        col = pd.Series(values, dtype=str_dtype if isinstance(str_dtype, str) else 'str')
     cols[attr] = col
     extra_cols = rng.randint(0, 2) if extra_cols is None else extra_cols
     for i in range(extra_cols):
@@ -370,8 +370,35 @@ def make_frame(rng, values, key_kind=None, attr='attr', key='id', extra_cols=Non
     if odd_index is None:
         odd_index = rng.random() < 0.4
     if odd_index and n > 0:
-        df.index = rng.sample(range(-3, 5 * n + 5), n)
+        if n > 1 and rng.random() < 0.35:
+            # repeated row labels, as in pd.concat([part1, part2]) without ignore_index: 0,1,0,1 — labels do not identify rows
+            k = rng.randint(1, n - 1)
+            df.index = [i % k for i in range(n)]
+        else:
+            df.index = rng.sample(range(-3, 5 * n + 5), n)
     return df
+
+
+def progress_kw(*shape):
+    """`show_progress` is True by default in every entry point: a share of the calls (chosen by a stable hash of the call's
+    shape, so that a replay makes the same choice) leaves it at the default; run those under `quiet()`"""
+    import zlib
+    return {} if zlib.crc32(repr(shape).encode()) % 6 == 0 else {'show_progress': False}
+
+
+class quiet:
+    """the progress bar (pyprind) and the package's progress messages write to sys.stderr / sys.stdout: send both to /dev/null for the duration of a call"""
+
+    def __enter__(self):
+        import os as _o, sys as _s
+        self._old, self._f = (_s.stdout, _s.stderr), open(_o.devnull, 'w')
+        _s.stdout = _s.stderr = self._f
+
+    def __exit__(self, *a):
+        import sys as _s
+        _s.stdout, _s.stderr = self._old
+        self._f.close()
+        return False
 
 
 def choose_out_attrs(rng, df, key, attr):
